@@ -265,3 +265,36 @@ func verifC11Long(k int) {
 	verifReach("c11.long")
 	verifAssert(pos == len(content), "c11: the whole content is scanned")
 }
+
+// verifC11MultiScan: the storage scanner over k in-memory lists (ids 1..k) of n
+// symbolic bytes each yields the rules of every list, in list order, each with the
+// storage index of (its list, its offset) - also when lists in the middle yield nothing.
+func verifC11MultiScan(k, n int) {
+	lists := make([]RuleList, k)
+	var want []verifScanned
+	for i := 0; i < k; i++ {
+		content := verifString(vn("content", i, ""), n, "a#\n")
+		lists[i] = &StringRuleList{ID: i + 1, RulesText: content}
+		want = append(want, verifRefParse(content, i+1, false)...)
+	}
+	s, err := NewRuleStorage(lists)
+	verifAssert(err == nil, "c11: a storage is built iff the list ids are distinct")
+	sc := s.NewRuleStorageScanner()
+	i := 0
+	for sc.Scan() {
+		r, idx := sc.Rule()
+		verifAssert(i < len(want), "c11: storage scan == concatenation of the lists' rules (count)")
+		if i >= len(want) {
+			return
+		}
+		verifReach("c11.multiscan")
+		verifAssert(verifKind(r) == want[i].kind && r.Text() == want[i].text && r.GetFilterListID() == want[i].id,
+			"c11: storage scan == concatenation of the lists' rules (kind, text, list id)")
+		verifAssert(idx == ruleListIdxToStorageIdx(int32(want[i].id), int32(want[i].idx)), "c11: the reported storage index packs (list, offset) of the rule")
+		got, e := s.RetrieveRule(idx)
+		verifAssert(e == nil && got != nil && got.Text() == want[i].text && got.GetFilterListID() == want[i].id, "c11: RetrieveRule(idx) returns the scanned rule")
+		i++
+		verifAssert(i <= k*(n+1), "c11: the scanner terminates")
+	}
+	verifAssert(i == len(want), "c11: storage scan == concatenation of the lists' rules (count)")
+}
